@@ -42,7 +42,7 @@ SatP == [ p \in ( { <<d>> : d \in {"a", "ab"} } \cup { <<d1, d2>> : d1 \in {"a",
         @@ (<<".terraform","modules",".git">> :> D7) @@ (<<".terraform","modules",".git","b">> :> FileNode(644, 2, 1))
 RuleTree == [ p \in { W(r) : r \in DOMAIN SatP } |-> SatP[SubSeq(p, 4, Len(p))] ]
             @@ (W(<<".terraformignore">>) :> FileNode(644, 2, RuleFileC)) @@ ArenaP
-SegPatsP == { <<"a">>, <<"b">>, <<"a","*">>, <<"*">>, <<"?">> }
+SegPatsP == { <<"a">>, <<"b">>, <<"a","*">>, <<"*">>, <<"?">>, <<"a","?">> }
 SegListsP == { <<s>> : s \in SegPatsP } \cup { <<s, t>> : s \in SegPatsP \cup {DSeg}, t \in SegPatsP } \cup { <<<<"a">>, DSeg, <<"b">>>> }
 RulesP == { SR(n, a, d, sg) : n \in BOOLEAN, a \in BOOLEAN, d \in BOOLEAN, sg \in SegListsP }
 RuleListsP == CASE PRuleMode = "single" -> { <<r>> : r \in { x \in RulesP : ~x.neg } }
